@@ -197,12 +197,17 @@ def evaluate__div_operator(self: XPathToken, context: ta.ContextType = None) \
             isinstance(dividend, (int, decimal.Decimal)) and \
             isinstance(divisor, (int, decimal.Decimal)):
         raise self.error('FOAR0001')
-    elif dividend == 0:
-        return math.nan
-    elif dividend > 0:
-        return float('-inf') if str(divisor).startswith('-') else float('inf')
+
+    # division by zero of xs:float/xs:double values (or XPath 1.0 numbers)
+    cls = type(dividend * 0 + divisor * 0)  # type: ignore[operator]
+    if not issubclass(cls, float):
+        cls = float
+    if dividend == 0 or math.isnan(dividend):
+        return cls(math.nan)
+    elif (dividend > 0) != str(divisor).startswith('-'):
+        return cls(math.inf)
     else:
-        return float('inf') if str(divisor).startswith('-') else float('-inf')
+        return cls(-math.inf)
 
 
 @method(infix('mod', bp=45))
